@@ -83,10 +83,15 @@ func decodeFormat4(in []byte, code2rune func(c int) rune) (Subtable, error) {
 				}
 				return nil, errMalformedSubtable
 			}
+			delta := idDelta[k]
 			for idx := start; idx < end; idx++ {
-				c := glyph.ID(glyphIDArray[d+int(idx-start)])
+				c := glyphIDArray[d+int(idx-start)]
 				if c != 0 {
-					cmap[uint16(code2rune(int(idx)))] = c
+					// idDelta also applies to values from the glyph ID array
+					c += delta
+				}
+				if c != 0 {
+					cmap[uint16(code2rune(int(idx)))] = glyph.ID(c)
 				}
 			}
 		}
